@@ -2,6 +2,7 @@ package simrt
 
 import (
 	"fmt"
+	mrand "math/rand"
 	"testing"
 )
 
@@ -25,6 +26,7 @@ func mapOrder(t *testing.T, seed uint64) string {
 		for k := range big {
 			out += fmt.Sprint(k, ",")
 		}
+		out += fmt.Sprint("|", mrand.Intn(1000000), mrand.Int63())
 	})
 	return out
 }
